@@ -29,8 +29,11 @@ CONSTANTS LMode,     \* "exh" | "exh2" | "rand" | "bidi" | "para" | "none" : tok
 VARIABLES sc         \* the scenario: [toks, wsel, align, indent]
 lvars == <<vars, sc>>
 
-SP == 32  NBSP == 160  IDSP == 12288  SHY == 173  HY == 45  NL == 10  CR == 13
-WS == {SP, IDSP, NL, CR}        \* what may be dropped at the end of a line
+SP == 32  NBSP == 160  IDSP == 12288  SHY == 173  HY == 45  NL == 10  CR == 13  ZW == 8203
+\* what may be dropped at the end of a line: white space, including the zero width space U+200B (a break opportunity
+\* that shows nothing: unlike the soft hyphen it is never replaced by a hyphen - the glyph clause below demands
+\* glyph text = span text for every character but the soft hyphen)
+WS == {SP, IDSP, NL, CR, ZW}
 NLCh == {NL, CR}                \* explicit line breaks: LF, CR, and CR LF (one break)
 GlueCh == {SP, IDSP}
 
@@ -184,7 +187,8 @@ LExplain(e) == LET dec == ~e.bidi /\ Decomp(e.text, [j \in 1..Len(e.lines) |-> L
 \* soft hyphens only occur where they are meant to be used: inside words
 Words == {"on", "women", "wo_men", "new2", "ne_w2"}
 Toks == Words \cup {"sp", "nbsp", "idsp", "hy", "nl"}
-Toks2 == Toks \cup {"crlf", "cr"}        \* CR LF (one line break) and a lone CR
+Words2 == Words \cup {"wo_zmen"}                  \* wo + U+200B ZERO WIDTH SPACE + men
+Toks2 == Toks \cup {"crlf", "cr", "wo_zmen"}     \* CR LF (one line break), a lone CR, a word with a zero width space
 \* "bidi": a right-to-left paragraph (starts with a Hebrew word) that contains left-to-right words in both faces
 BidiToks == {"heb", "sp", "on", "new2"}
 BidiOK(f) == f[1] = "heb" /\ (\E i \in DOMAIN f : f[i] = "on") /\ (\E i \in DOMAIN f : f[i] = "new2")
@@ -194,7 +198,7 @@ TokLists == IF LMode = "exh" THEN [1..NTok -> Toks]
             ELSE IF LMode = "exh2" THEN [1..NTok -> Toks2]
             ELSE IF LMode = "rand" THEN RandomSubset(NLRand, [1..NTok -> Toks2])
             ELSE IF LMode = "bidi" THEN {f \in (IF NLRand = 0 THEN [1..NTok -> BidiToks] ELSE RandomSubset(NLRand, [1..NTok -> BidiToks])) : BidiOK(f)}
-            ELSE IF LMode = "para" THEN {Interleave(f) : f \in RandomSubset(NLRand, [1..NTok -> Words])}
+            ELSE IF LMode = "para" THEN {Interleave(f) : f \in RandomSubset(NLRand, [1..NTok -> Words2])}
             ELSE {}
 Aligns == {"L", "R", "C", "J"}
 LInit == /\ items = <<>> /\ width = 0 /\ ph = 1 /\ lt = <<>>
